@@ -4,9 +4,709 @@ Helper lemmas for property C12 (Mathlib allowed here).
 import Pyiga.Model.ODE
 import Mathlib.Tactic.Ring
 import Mathlib.Tactic.Linarith
+import Mathlib.Tactic.Abel
 import Mathlib.Algebra.BigOperators.Group.Finset.Basic
 import Mathlib.Algebra.Module.Basic
+import Mathlib.Algebra.Order.Field.Basic
 
 namespace Pyiga.ODE
+
+/-! ### `sumRange` -/
+
+section sumRange
+
+theorem sumRange_zero {V : Type} [Zero V] [Add V] (f : Nat → V) : sumRange 0 f = 0 := rfl
+
+theorem sumRange_succ {V : Type} [Zero V] [Add V] (n : Nat) (f : Nat → V) :
+    sumRange (n + 1) f = sumRange n f + f n := by
+  simp [sumRange, List.range_succ, List.foldl_append]
+
+theorem sumRange_congr {V : Type} [Zero V] [Add V] {n : Nat} {f g : Nat → V}
+    (h : ∀ j, j < n → f j = g j) : sumRange n f = sumRange n g := by
+  induction n with
+  | zero => rfl
+  | succ n ih =>
+    rw [sumRange_succ, sumRange_succ, ih (fun j hj => h j (Nat.lt_succ_of_lt hj)),
+      h n (Nat.lt_succ_self n)]
+
+theorem sumRange_eq_sum {V : Type} [AddCommMonoid V] (n : Nat) (f : Nat → V) :
+    sumRange n f = ∑ j ∈ Finset.range n, f j := by
+  induction n with
+  | zero => simp [sumRange_zero]
+  | succ n ih => rw [sumRange_succ, Finset.sum_range_succ, ih]
+
+theorem sumRange_smul_const {K V : Type} [Semiring K] [AddCommMonoid V] [Module K V]
+    (n : Nat) (b : Nat → K) (c : V) :
+    sumRange n (fun i => b i • c) = (sumRange n b) • c := by
+  induction n with
+  | zero => simp [sumRange_zero]
+  | succ n ih => rw [sumRange_succ, sumRange_succ, ih, add_smul]
+
+end sumRange
+
+/-! ### `getD` on appended singletons -/
+
+section lists
+variable {V : Type}
+
+theorem getD_append_lt (l : List V) (a d : V) {i : Nat} (h : i < l.length) :
+    (l ++ [a]).getD i d = l.getD i d := by
+  simp [List.getD_eq_getElem?_getD, List.getElem?_append_left h]
+
+theorem getD_append_length (l : List V) (a d : V) : (l ++ [a]).getD l.length d = a := by
+  simp [List.getD_eq_getElem?_getD]
+
+theorem getD_congr_default (l : List V) (d d' : V) {i : Nat} (h : i < l.length) :
+    l.getD i d = l.getD i d' := by
+  simp [List.getD_eq_getElem?_getD, List.getElem?_eq_getElem h]
+
+end lists
+
+/-! ### `newton` -/
+
+section newton
+variable {V : Type} [Sub V]
+
+theorem newtonLoop_converged (G : V → V) (jsolve : V → V → V) (conv : V → Bool) (freeze : Nat) :
+    ∀ (fuel k : Nat) (x res xJ x' : V) (k' : Nat), res = G x →
+      newtonLoop G jsolve conv freeze fuel k x res xJ = .converged x' k' →
+      conv (G x') = true ∧ k ≤ k' ∧ k' < k + fuel := by
+  intro fuel
+  induction fuel with
+  | zero => intro k x res xJ x' k' _ h; simp [newtonLoop] at h
+  | succ fuel ih =>
+    intro k x res xJ x' k' hres h
+    rw [newtonLoop] at h
+    split at h
+    · rename_i hc
+      injection h with h1 h2
+      subst h1 h2 hres
+      exact ⟨hc, Nat.le_refl _, by omega⟩
+    · obtain ⟨h1, h2, h3⟩ := ih _ _ _ _ _ _ rfl h
+      exact ⟨h1, by omega, by omega⟩
+
+theorem newtonLoop_noConvergence (G : V → V) (jsolve : V → V → V) (conv : V → Bool)
+    (freeze : Nat) :
+    ∀ (fuel k : Nat) (x res xJ x' : V) (k' : Nat),
+      newtonLoop G jsolve conv freeze fuel k x res xJ = .noConvergence x' k' →
+      k' = k + fuel := by
+  intro fuel
+  induction fuel with
+  | zero =>
+    intro k x res xJ x' k' h
+    rw [newtonLoop] at h
+    injection h with h1 h2
+    omega
+  | succ fuel ih =>
+    intro k x res xJ x' k' h
+    rw [newtonLoop] at h
+    split at h
+    · simp at h
+    · have := ih _ _ _ _ _ _ h
+      omega
+
+theorem newton_converged (G : V → V) (jsolve : V → V → V) (convOf : V → V → Bool)
+    (maxiter freeze : Nat) (x0 x : V) (k : Nat)
+    (h : newton G jsolve convOf maxiter freeze x0 = .converged x k) :
+    convOf (G x0) (G x) = true ∧ k < maxiter := by
+  obtain ⟨h1, _, h3⟩ :=
+    newtonLoop_converged G jsolve (convOf (G x0)) freeze maxiter 0 x0 (G x0) x0 x k rfl h
+  exact ⟨h1, by omega⟩
+
+theorem newton_noConvergence (G : V → V) (jsolve : V → V → V) (convOf : V → V → Bool)
+    (maxiter freeze : Nat) (x0 x : V) (k : Nat)
+    (h : newton G jsolve convOf maxiter freeze x0 = .noConvergence x k) : k = maxiter := by
+  have := newtonLoop_noConvergence G jsolve (convOf (G x0)) freeze maxiter 0 x0 (G x0) x0 x k h
+  omega
+
+theorem newton_linear [Zero V] (G : V → V) (jsolve : V → V → V) (convOf : V → V → Bool)
+    (maxiter freeze : Nat) (x0 : V)
+    (hJ : ∀ z xJ, G (z - jsolve xJ (G z)) = 0) (hzero : ∀ r0, convOf r0 0 = true)
+    (hm : 2 ≤ maxiter) :
+    ∃ x k, newton G jsolve convOf maxiter freeze x0 = .converged x k ∧
+      ((k = 0 ∧ x = x0) ∨ (k = 1 ∧ G x = 0)) := by
+  obtain ⟨m, rfl⟩ : ∃ m, maxiter = m + 2 := ⟨maxiter - 2, by omega⟩
+  unfold newton
+  simp only []
+  rw [newtonLoop]
+  by_cases hc : convOf (G x0) (G x0) = true
+  · exact ⟨x0, 0, by simp [hc], Or.inl ⟨rfl, rfl⟩⟩
+  · simp only [hc, if_false, Bool.false_eq_true]
+    rw [newtonLoop]
+    simp only [hJ, hzero, if_true]
+    exact ⟨_, _, rfl, Or.inr ⟨rfl, hJ _ _⟩⟩
+
+end newton
+
+/-! ### `dirk_step` -/
+
+section dirk
+variable {K V : Type} [Field K] [AddCommGroup V] [Module K V]
+
+/-- What the stage loop guarantees about stage `i` of the stage lists `ys`, `Fy`:
+an explicit stage (`a_ii = 0`) is the first one and copies `x`, `Fx or F(x)`; an implicit
+stage carries `F(y_i)` and `y_i` passed Newton's convergence test for the stage residual. -/
+def StageOK (A : Nat → Nat → K) (M F : V → V) (convOf : V → V → Bool) (x : V) (tau : K)
+    (Fx : Option V) (ys Fy : List V) (i : Nat) : Prop :=
+  (A i i = 0 → i = 0 ∧ ys.getD i 0 = x ∧ Fy.getD i 0 = Fx.getD (F x)) ∧
+  (A i i ≠ 0 → Fy.getD i 0 = F (ys.getD i 0) ∧
+    ∃ r0, convOf r0 (M (ys.getD i 0) - (tau * A i i) • F (ys.getD i 0)
+      - (M x + tau • sumRange i (fun j => A i j • Fy.getD j 0))) = true)
+
+theorem StageOK.congr {A : Nat → Nat → K} {M F : V → V} {convOf : V → V → Bool} {x : V} {tau : K}
+    {Fx : Option V} {ys Fy ys' Fy' : List V} {i : Nat}
+    (hy : ys'.getD i 0 = ys.getD i 0) (hF : ∀ j, j ≤ i → Fy'.getD j 0 = Fy.getD j 0)
+    (h : StageOK A M F convOf x tau Fx ys Fy i) : StageOK A M F convOf x tau Fx ys' Fy' i := by
+  have hs : sumRange i (fun j => A i j • Fy'.getD j 0) = sumRange i (fun j => A i j • Fy.getD j 0) :=
+    sumRange_congr (fun j hj => by rw [hF j (Nat.le_of_lt hj)])
+  unfold StageOK
+  rw [hy, hF i (Nat.le_refl i), hs]
+  exact h
+
+theorem dirkStage_ok [DecidableEq K] {A : Nat → Nat → K} {M F : V → V} {jsolve : K → V → V → V}
+    {convOf : V → V → Bool} {x : V} {tau : K} {Fx : Option V} {i : Nat} {st st' : StageState V}
+    (h : dirkStage A M F jsolve convOf x tau Fx i st = .ok st') :
+    ∃ y fy, st'.ys = st.ys ++ [y] ∧ st'.Fy = st.Fy ++ [fy] ∧
+      (A i i = 0 → i = 0 ∧ y = x ∧ fy = Fx.getD (F x)) ∧
+      (A i i ≠ 0 → fy = F y ∧
+        ∃ r0, convOf r0 (M y - (tau * A i i) • F y
+          - (M x + tau • sumRange i (fun j => A i j • st.Fy.getD j 0))) = true) := by
+  by_cases ha : A i i = 0
+  · simp only [dirkStage, ha, beq_self_eq_true, if_true] at h
+    split at h
+    · exact absurd h (by simp)
+    · rename_i hi
+      have hi0 : i = 0 := by simpa using hi
+      cases Fx with
+      | some v =>
+        simp only [Except.ok.injEq] at h
+        subst h
+        exact ⟨x, v, rfl, rfl, fun _ => ⟨hi0, rfl, rfl⟩, fun hne => absurd ha hne⟩
+      | none =>
+        simp only [Except.ok.injEq] at h
+        subst h
+        exact ⟨x, F x, rfl, rfl, fun _ => ⟨hi0, rfl, rfl⟩, fun hne => absurd ha hne⟩
+  · have hb : (A i i == 0) = false := by simpa using ha
+    simp only [dirkStage, hb, Bool.false_eq_true, if_false] at h
+    split at h
+    · rename_i y k hn
+      simp only [Except.ok.injEq] at h
+      subst h
+      have := (newton_converged _ _ _ _ _ _ _ _ hn).1
+      exact ⟨y, F y, rfl, rfl, fun h0 => absurd h0 ha, fun _ => ⟨rfl, _, this⟩⟩
+    · exact absurd h (by simp)
+
+theorem dirkStages_spec [DecidableEq K] {A : Nat → Nat → K} {M F : V → V} {jsolve : K → V → V → V}
+    {convOf : V → V → Bool} {x : V} {tau : K} {Fx : Option V} :
+    ∀ (n : Nat) (st : StageState V), dirkStages A M F jsolve convOf x tau Fx n = .ok st →
+      st.ys.length = n ∧ st.Fy.length = n ∧
+      ∀ i, i < n → StageOK A M F convOf x tau Fx st.ys st.Fy i := by
+  intro n
+  induction n with
+  | zero =>
+    intro st h
+    simp only [dirkStages, Except.ok.injEq] at h
+    subst h
+    exact ⟨rfl, rfl, fun i hi => absurd hi (Nat.not_lt_zero i)⟩
+  | succ n ih =>
+    intro st' h
+    rw [dirkStages] at h
+    split at h
+    · exact absurd h (by simp)
+    · rename_i st hst
+      obtain ⟨hl1, hl2, hall⟩ := ih st hst
+      obtain ⟨y, fy, hy, hf, h0, h1⟩ := dirkStage_ok h
+      refine ⟨by simp [hy, hl1], by simp [hf, hl2], ?_⟩
+      intro i hi
+      have hFpre : ∀ j, j < n → st'.Fy.getD j 0 = st.Fy.getD j 0 := fun j hj => by
+        rw [hf]; exact getD_append_lt _ _ _ (by omega)
+      rcases Nat.lt_succ_iff_lt_or_eq.mp hi with hlt | rfl
+      · refine (hall i hlt).congr ?_ (fun j hj => hFpre j (by omega))
+        rw [hy]; exact getD_append_lt _ _ _ (by omega)
+      · have hyn : st'.ys.getD i 0 = y := by rw [hy, ← hl1]; exact getD_append_length _ _ _
+        have hfn : st'.Fy.getD i 0 = fy := by rw [hf, ← hl2]; exact getD_append_length _ _ _
+        have hs : sumRange i (fun j => A i j • st'.Fy.getD j 0)
+            = sumRange i (fun j => A i j • st.Fy.getD j 0) :=
+          sumRange_congr (fun j hj => by rw [hFpre j hj])
+        unfold StageOK
+        rw [hyn, hfn, hs]
+        exact ⟨h0, h1⟩
+
+/-- with a consistent `Fx`, `Fy[i] = F(ys[i])` for every stage. -/
+theorem StageOK.Fy_eq {A : Nat → Nat → K} {M F : V → V} {convOf : V → V → Bool} {x : V} {tau : K}
+    {Fx : Option V} {ys Fy : List V} {i : Nat} (hFx : Fx = none ∨ Fx = some (F x))
+    (h : StageOK A M F convOf x tau Fx ys Fy i) : Fy.getD i 0 = F (ys.getD i 0) := by
+  by_cases ha : A i i = 0
+  · obtain ⟨_, h2, h3⟩ := h.1 ha
+    rw [h3, h2]
+    rcases hFx with rfl | rfl <;> rfl
+  · exact (h.2 ha).1
+
+/-- residual form of the stage equation. -/
+theorem StageOK.residual {A : Nat → Nat → K} {M F : V → V} {convOf : V → V → Bool} {x : V}
+    {tau : K} {Fx : Option V} {ys Fy : List V} {i : Nat} (ha : A i i ≠ 0)
+    (h : StageOK A M F convOf x tau Fx ys Fy i) :
+    ∃ r0 ρ, convOf r0 ρ = true ∧
+      M (ys.getD i 0) = M x + tau • sumRange (i + 1) (fun j => A i j • Fy.getD j 0) + ρ := by
+  obtain ⟨hf, r0, hr⟩ := h.2 ha
+  refine ⟨r0, _, hr, ?_⟩
+  rw [sumRange_succ, smul_add, smul_smul, hf]
+  abel
+
+theorem StageOK.exact {A : Nat → Nat → K} {M F : V → V} {convOf : V → V → Bool} {x : V} {tau : K}
+    {Fx : Option V} {ys Fy : List V} {i : Nat}
+    (hexact : ∀ r0 r, convOf r0 r = true → r = 0) (hFx : Fx = none ∨ Fx = some (F x))
+    (hall : ∀ j, j ≤ i → StageOK A M F convOf x tau Fx ys Fy j) :
+    M (ys.getD i 0) = M x + tau • sumRange (i + 1) (fun j => A i j • F (ys.getD j 0)) := by
+  have hs : sumRange (i + 1) (fun j => A i j • F (ys.getD j 0))
+      = sumRange (i + 1) (fun j => A i j • Fy.getD j 0) :=
+    sumRange_congr (fun j hj => by rw [(hall j (by omega)).Fy_eq hFx])
+  rw [hs]
+  by_cases ha : A i i = 0
+  · obtain ⟨h1, h2, _⟩ := (hall i (Nat.le_refl i)).1 ha
+    subst h1
+    rw [h2, sumRange_succ, sumRange_zero, ha]
+    simp
+  · obtain ⟨r0, ρ, hr, h⟩ := (hall i (Nat.le_refl i)).residual ha
+    rw [h, hexact r0 ρ hr, add_zero]
+
+end dirk
+
+section dirkStep
+variable {K V : Type} [Field K] [DecidableEq K] [AddCommGroup V] [Module K V]
+variable {s : Nat} {A : Nat → Nat → K} {b : Nat → K} {bhat : Option (Nat → K)} {isSA : Bool}
+  {M Minv F : V → V} {jsolve : K → V → V → V} {convOf : V → V → Bool} {x : V} {tau : K}
+  {Fx : Option V} {o : DirkOut V}
+
+theorem dirkStep_ok
+    (h : dirkStep s A b bhat isSA M Minv F jsolve convOf x tau Fx = .ok o) :
+    dirkStages A M F jsolve convOf x tau Fx s = .ok ⟨o.ys, o.Fy, o.fcalls⟩ ∧
+    o.xnew = (if isSA then o.ys.getD (s - 1) x else dirkCombine s M Minv x tau o.Fy b) ∧
+    o.Fxnew = (if isSA then some (o.Fy.getD (s - 1) 0) else none) ∧
+    o.xest = bhat.map (dirkCombine s M Minv x tau o.Fy) := by
+  unfold dirkStep at h
+  split at h
+  · exact absurd h (by simp)
+  · rename_i st hst
+    simp only [Except.ok.injEq] at h
+    subst h
+    exact ⟨hst, rfl, rfl, rfl⟩
+
+theorem dirkStages_linear {n : Nat} {st : StageState V}
+    (hexact : ∀ r0 r, convOf r0 r = true → r = 0) (hFx : Fx = none ∨ Fx = some (F x))
+    (h : dirkStages A M F jsolve convOf x tau Fx n = .ok st) :
+    ∀ i, i < n → st.Fy.getD i 0 = F (st.ys.getD i 0) ∧
+      M (st.ys.getD i 0) = M x + tau • sumRange (i + 1) (fun j => A i j • F (st.ys.getD j 0)) := by
+  obtain ⟨_, _, hall⟩ := dirkStages_spec n st h
+  intro i hi
+  exact ⟨(hall i hi).Fy_eq hFx, StageOK.exact hexact hFx (fun j hj => hall j (by omega))⟩
+
+theorem dirkStep_update (h : dirkStep s A b bhat false M Minv F jsolve convOf x tau Fx = .ok o)
+    (hM : ∀ v, M (Minv v) = v) :
+    M o.xnew = M x + tau • sumRange s (fun i => b i • o.Fy.getD i 0) ∧ o.Fxnew = none ∧
+    dirkStages A M F jsolve convOf x tau Fx s = .ok ⟨o.ys, o.Fy, o.fcalls⟩ := by
+  obtain ⟨h1, h2, h3, _⟩ := dirkStep_ok h
+  refine ⟨?_, by simpa using h3, h1⟩
+  rw [h2]
+  simp only [Bool.false_eq_true, if_false, dirkCombine, hM]
+
+theorem dirkStep_embedded (h : dirkStep s A b bhat isSA M Minv F jsolve convOf x tau Fx = .ok o)
+    (hM : ∀ v, M (Minv v) = v) :
+    (∀ w, bhat = some w → ∃ xe, o.xest = some xe ∧
+      M xe = M x + tau • sumRange s (fun i => w i • o.Fy.getD i 0)) ∧
+    (bhat = none → o.xest = none) := by
+  obtain ⟨_, _, _, h4⟩ := dirkStep_ok h
+  constructor
+  · rintro w rfl
+    exact ⟨_, h4, by simp only [dirkCombine, hM]⟩
+  · rintro rfl
+    exact h4
+
+/-- stiffly accurate shortcut, residual form. -/
+theorem dirkStep_sa_residual
+    (h : dirkStep s A b bhat true M Minv F jsolve convOf x tau Fx = .ok o)
+    (hs : 0 < s) (hb : ∀ j, j < s → b j = A (s - 1) j) (ha : A (s - 1) (s - 1) ≠ 0) :
+    (∃ r0 ρ, convOf r0 ρ = true ∧
+      M o.xnew = M x + tau • sumRange s (fun i => b i • o.Fy.getD i 0) + ρ) ∧
+    o.Fxnew = some (F o.xnew) ∧ o.xnew = o.ys.getD (s - 1) 0 := by
+  obtain ⟨h1, h2, h3, _⟩ := dirkStep_ok h
+  obtain ⟨hl, _, hall⟩ := dirkStages_spec s _ h1
+  simp only [if_true] at h2 h3
+  have hx : o.xnew = o.ys.getD (s - 1) 0 := by
+    rw [h2]; exact getD_congr_default _ _ _ (by simp only at hl; omega)
+  have hst := hall (s - 1) (by omega)
+  refine ⟨?_, ?_, hx⟩
+  · obtain ⟨r0, ρ, hr, he⟩ := hst.residual ha
+    refine ⟨r0, ρ, hr, ?_⟩
+    rw [hx, he, Nat.sub_add_cancel hs]
+    congr 3
+    exact sumRange_congr (fun j hj => by rw [hb j hj])
+  · rw [h3, hx, (hst.2 ha).1]
+
+theorem dirkStep_sa (h : dirkStep s A b bhat true M Minv F jsolve convOf x tau Fx = .ok o)
+    (hs : 0 < s) (hb : ∀ j, j < s → b j = A (s - 1) j) (ha : A (s - 1) (s - 1) ≠ 0)
+    (hexact : ∀ r0 r, convOf r0 r = true → r = 0) (hFx : Fx = none ∨ Fx = some (F x)) :
+    M o.xnew = M x + tau • sumRange s (fun i => b i • F (o.ys.getD i 0)) ∧
+    o.Fxnew = some (F o.xnew) := by
+  obtain ⟨⟨r0, ρ, hr, he⟩, hF, _⟩ := dirkStep_sa_residual h hs hb ha
+  obtain ⟨h1, _⟩ := dirkStep_ok h
+  have hlin := dirkStages_linear hexact hFx h1
+  refine ⟨?_, hF⟩
+  rw [he, hexact r0 ρ hr, add_zero]
+  congr 2
+  exact sumRange_congr (fun j hj => by rw [(hlin j hj).1])
+
+theorem dirkStages_const {c : V} {n : Nat} {st : StageState V}
+    (hFx : Fx = none ∨ Fx = some c)
+    (h : dirkStages A M (fun _ => c) jsolve convOf x tau Fx n = .ok st) :
+    ∀ i, i < n → st.Fy.getD i 0 = c := by
+  obtain ⟨_, _, hall⟩ := dirkStages_spec n st h
+  intro i hi
+  exact (hall i hi).Fy_eq (F := fun _ => c) hFx
+
+theorem dirkStep_const {c : V}
+    (h : dirkStep s A b bhat false M Minv (fun _ => c) jsolve convOf x tau Fx = .ok o)
+    (hFx : Fx = none ∨ Fx = some c) (hM : ∀ v, M (Minv v) = v) :
+    M o.xnew = M x + (tau * sumRange s b) • c ∧ (sumRange s b = 1 → M o.xnew = M x + tau • c) := by
+  obtain ⟨h1, _, h3⟩ := dirkStep_update h hM
+  have hc := dirkStages_const hFx h3
+  have : M o.xnew = M x + (tau * sumRange s b) • c := by
+    rw [h1, mul_smul, ← sumRange_smul_const]
+    congr 2
+    exact sumRange_congr (fun j hj => by rw [hc j hj])
+  exact ⟨this, fun h1 => by rw [this, h1, mul_one]⟩
+
+theorem dirkStep_const_sa {c : V}
+    (h : dirkStep s A b bhat true M Minv (fun _ => c) jsolve convOf x tau Fx = .ok o)
+    (hs : 0 < s) (hb : ∀ j, j < s → b j = A (s - 1) j) (ha : A (s - 1) (s - 1) ≠ 0)
+    (hexact : ∀ r0 r, convOf r0 r = true → r = 0) (hFx : Fx = none ∨ Fx = some c) :
+    M o.xnew = M x + (tau * sumRange s b) • c ∧ (sumRange s b = 1 → M o.xnew = M x + tau • c) := by
+  have := (dirkStep_sa h hs hb ha hexact hFx).1
+  have : M o.xnew = M x + (tau * sumRange s b) • c := by
+    rw [this, mul_smul, ← sumRange_smul_const]
+  exact ⟨this, fun h1 => by rw [this, h1, mul_one]⟩
+
+end dirkStep
+
+/-! ### `rosenbrock_step` -/
+
+section ros
+variable {K V : Type} [Field K] [AddCommGroup V] [Module K V]
+variable (A G : Nat → Nat → K) (F jac : V → V) (csolve : K → V → V) (x : V) (tau : K)
+
+theorem rosStages_length (n : Nat) : (rosStages A G F jac csolve x tau n).length = n := by
+  induction n with
+  | zero => rfl
+  | succ n ih => simp [rosStages, ih]
+
+theorem rosStage_congr {i : Nat} {ks ks' : List V} (h : ∀ j, j < i → ks.getD j 0 = ks'.getD j 0) :
+    rosStage A G F jac csolve x tau i ks = rosStage A G F jac csolve x tau i ks' := by
+  have h1 : sumRange i (fun j => A i j • ks.getD j 0) = sumRange i (fun j => A i j • ks'.getD j 0) :=
+    sumRange_congr (fun j hj => by rw [h j hj])
+  have h2 : sumRange i (fun j => G i j • ks.getD j 0) = sumRange i (fun j => G i j • ks'.getD j 0) :=
+    sumRange_congr (fun j hj => by rw [h j hj])
+  simp only [rosStage, h1, h2]
+
+theorem rosStages_getD_mono {i m n : Nat} (hi : i < m) (hmn : m ≤ n) :
+    (rosStages A G F jac csolve x tau n).getD i 0 = (rosStages A G F jac csolve x tau m).getD i 0 := by
+  induction n with
+  | zero => omega
+  | succ n ih =>
+    rcases Nat.eq_or_lt_of_le hmn with rfl | hlt
+    · rfl
+    · rw [← ih (by omega), rosStages]
+      exact getD_append_lt _ _ _ (by rw [rosStages_length]; omega)
+
+theorem rosStages_getD {i n : Nat} (hi : i < n) :
+    (rosStages A G F jac csolve x tau n).getD i 0
+      = rosStage A G F jac csolve x tau i (rosStages A G F jac csolve x tau n) := by
+  rw [rosStages_getD_mono A G F jac csolve x tau (Nat.lt_succ_self i) hi]
+  conv_lhs => rw [rosStages]
+  have := getD_append_length (rosStages A G F jac csolve x tau i)
+    (rosStage A G F jac csolve x tau i (rosStages A G F jac csolve x tau i)) 0
+  rw [rosStages_length] at this
+  rw [this]
+  exact rosStage_congr A G F jac csolve x tau
+    (fun j hj => (rosStages_getD_mono A G F jac csolve x tau hj (Nat.le_of_lt hi)).symm)
+
+theorem rosStages_equation (M : V → V)
+    (hC : ∀ r, M (csolve (tau * G 0 0) r) - (tau * G 0 0) • jac (csolve (tau * G 0 0) r) = r)
+    {i n : Nat} (hi : i < n) :
+    M ((rosStages A G F jac csolve x tau n).getD i 0)
+        - (tau * G 0 0) • jac ((rosStages A G F jac csolve x tau n).getD i 0)
+      = F (x + tau • sumRange i (fun j => A i j • (rosStages A G F jac csolve x tau n).getD j 0))
+        + (if i > 0 then
+            tau • jac (sumRange i (fun j => G i j • (rosStages A G F jac csolve x tau n).getD j 0))
+           else 0) := by
+  rw [rosStages_getD A G F jac csolve x tau hi]
+  simp only [rosStage, hC]
+  split_ifs <;> simp
+
+theorem rosStages_const (c : V) {i n : Nat} (hi : i < n) :
+    (rosStages A G (fun _ => c) (fun _ => 0) csolve x tau n).getD i 0 = csolve (tau * G 0 0) c := by
+  rw [rosStages_getD A G _ _ csolve x tau hi]
+  simp [rosStage]
+
+theorem rosStep_const (s : Nat) (b : Nat → K) (bhat : Option (Nat → K)) (c : V) :
+    (rosStep s A G b bhat (fun _ => c) (fun _ => 0) csolve x tau).xnew
+      = x + (tau * sumRange s b) • csolve (tau * G 0 0) c := by
+  simp only [rosStep]
+  rw [mul_smul, ← sumRange_smul_const]
+  congr 2
+  exact sumRange_congr (fun j hj => by rw [rosStages_const A G csolve x tau c hj])
+
+end ros
+
+/-! ### `_constant_step_method` -/
+
+section constDriver
+variable {K V : Type}
+
+theorem constLoop_extends [Add K] [Mul K] [NatCast K]
+    (step : V → Option V → Except StepErr (V × Option V)) (t0 tau : K) :
+    ∀ (fuel i : Nat) (x : V) (Fx : Option V) (ts : List K) (xs : List V) (ts' : List K)
+      (xs' : List V), constLoop step t0 tau fuel i x Fx ts xs = .ok (ts', xs') →
+      ts <+: ts' ∧ xs <+: xs' := by
+  intro fuel
+  induction fuel with
+  | zero =>
+    intro i x Fx ts xs ts' xs' h
+    simp only [constLoop, Except.ok.injEq, Prod.mk.injEq] at h
+    obtain ⟨rfl, rfl⟩ := h
+    exact ⟨List.prefix_refl _, List.prefix_refl _⟩
+  | succ fuel ih =>
+    intro i x Fx ts xs ts' xs' h
+    rw [constLoop] at h
+    split at h
+    · simp only [Except.ok.injEq, Prod.mk.injEq] at h
+      obtain ⟨rfl, rfl⟩ := h
+      exact ⟨List.prefix_refl _, List.prefix_refl _⟩
+    · exact absurd h (by simp)
+    · obtain ⟨h1, h2⟩ := ih _ _ _ _ _ _ _ h
+      exact ⟨(List.prefix_append _ _).trans h1, (List.prefix_append _ _).trans h2⟩
+
+theorem constLoop_prefix [Add K] [Mul K] [NatCast K]
+    (step : V → Option V → Except StepErr (V × Option V)) (t0 tau : K) :
+    ∀ (m n : Nat), m ≤ n → ∀ (i : Nat) (x : V) (Fx : Option V) (ts : List K) (xs : List V)
+      (ts' : List K) (xs' : List V), constLoop step t0 tau n i x Fx ts xs = .ok (ts', xs') →
+      ∃ ts'' xs'', constLoop step t0 tau m i x Fx ts xs = .ok (ts'', xs'') ∧
+        ts'' <+: ts' ∧ xs'' <+: xs' := by
+  intro m
+  induction m with
+  | zero =>
+    intro n _ i x Fx ts xs ts' xs' h
+    exact ⟨ts, xs, rfl, constLoop_extends step t0 tau n i x Fx ts xs ts' xs' h⟩
+  | succ m ih =>
+    intro n hmn i x Fx ts xs ts' xs' h
+    obtain ⟨n, rfl⟩ : ∃ n', n = n' + 1 := ⟨n - 1, by omega⟩
+    rw [constLoop] at h
+    rw [constLoop]
+    split at h
+    · rename_i hst
+      simp only [Except.ok.injEq, Prod.mk.injEq] at h
+      obtain ⟨rfl, rfl⟩ := h
+      exact ⟨ts, xs, rfl, List.prefix_refl _, List.prefix_refl _⟩
+    · exact absurd h (by simp)
+    · rename_i x' Fx' hst
+      exact ih n (by omega) _ _ _ _ _ _ _ h
+
+theorem constLoop_spec [Ring K] (step : V → Option V → Except StepErr (V × Option V))
+    (t0 tau : K) :
+    ∀ (fuel i : Nat) (x : V) (Fx : Option V) (ts : List K) (xs : List V) (ts' : List K)
+      (xs' : List V), constLoop step t0 tau fuel i x Fx ts xs = .ok (ts', xs') →
+      ts.length = xs.length → ts.length = i + 1 →
+      (∀ k, k < ts.length → ts.getD k 0 = t0 + (k : K) * tau) →
+      ts'.length = xs'.length ∧ ts.length ≤ ts'.length ∧ ts'.length ≤ ts.length + fuel ∧
+      ∀ k, k < ts'.length → ts'.getD k 0 = t0 + (k : K) * tau := by
+  intro fuel
+  induction fuel with
+  | zero =>
+    intro i x Fx ts xs ts' xs' h hl hi hk
+    simp only [constLoop, Except.ok.injEq, Prod.mk.injEq] at h
+    obtain ⟨rfl, rfl⟩ := h
+    exact ⟨hl, Nat.le_refl _, Nat.le_refl _, hk⟩
+  | succ fuel ih =>
+    intro i x Fx ts xs ts' xs' h hl hi hk
+    rw [constLoop] at h
+    split at h
+    · simp only [Except.ok.injEq, Prod.mk.injEq] at h
+      obtain ⟨rfl, rfl⟩ := h
+      exact ⟨hl, Nat.le_refl _, by omega, hk⟩
+    · exact absurd h (by simp)
+    · have := ih _ _ _ _ _ _ _ h (by simp [hl]) (by simp [hi]) (by
+        intro k hk'
+        rw [List.length_append, List.length_singleton] at hk'
+        rcases Nat.lt_succ_iff_lt_or_eq.mp hk' with hlt | rfl
+        · rw [getD_append_lt _ _ _ hlt]; exact hk k hlt
+        · rw [getD_append_length, hi])
+      rw [List.length_append, List.length_singleton] at this
+      obtain ⟨h1, h2, h3, h4⟩ := this
+      exact ⟨h1, by omega, by omega, h4⟩
+
+theorem constLoop_complete [Add K] [Mul K] [NatCast K]
+    (step : V → Option V → Except StepErr (V × Option V)) (t0 tau : K)
+    (hstep : ∀ x Fx, ∃ r, step x Fx = .ok r) :
+    ∀ (fuel i : Nat) (x : V) (Fx : Option V) (ts : List K) (xs : List V),
+      ∃ ts' xs', constLoop step t0 tau fuel i x Fx ts xs = .ok (ts', xs') ∧
+        ts'.length = ts.length + fuel := by
+  intro fuel
+  induction fuel with
+  | zero => intro i x Fx ts xs; exact ⟨ts, xs, rfl, rfl⟩
+  | succ fuel ih =>
+    intro i x Fx ts xs
+    obtain ⟨⟨x', Fx'⟩, hr⟩ := hstep x Fx
+    rw [constLoop, hr]
+    obtain ⟨ts', xs', h1, h2⟩ := ih (i + 1) x' Fx' (ts ++ [t0 + ((i + 1 : Nat) : K) * tau]) (xs ++ [x'])
+    exact ⟨ts', xs', h1, by rw [h2, List.length_append, List.length_singleton]; omega⟩
+
+theorem constDriver_spec [Ring K] (step : V → Option V → Except StepErr (V × Option V))
+    (x0 : V) (tau t0 : K) (n : Nat) (ts : List K) (xs : List V)
+    (h : constDriver step x0 tau t0 n = .ok (ts, xs)) :
+    ts.length = xs.length ∧ 1 ≤ ts.length ∧ ts.length ≤ n + 1 ∧
+      ∀ k, k < ts.length → ts.getD k 0 = t0 + (k : K) * tau := by
+  have := constLoop_spec step t0 tau n 0 x0 none [t0] [x0] ts xs h rfl rfl (by
+    intro k hk
+    have : k = 0 := by simpa using hk
+    subst this
+    simp)
+  simp only [List.length_singleton] at this
+  obtain ⟨h1, h2, h3, h4⟩ := this
+  exact ⟨h1, h2, by omega, h4⟩
+
+end constDriver
+
+/-! ### `_adaptive_step_method` -/
+
+section adapt
+variable {K V : Type} [Field K] [LinearOrder K] [IsStrictOrderedRing K]
+
+theorem pclamp_mem {lo hi : K} (h : lo ≤ hi) (z : K) :
+    lo ≤ pmin hi (pmax lo z) ∧ pmin hi (pmax lo z) ≤ hi := by
+  unfold pmin pmax
+  split_ifs <;> constructor <;> linarith
+
+/-- an accepted step -/
+def Event.isAccepted : Event K → Bool
+  | .stepped _ acc _ => acc
+  | .newtonFailed => false
+
+/-- a logged step was accepted iff `r ≤ 1` and its factor was clamped to `[lo, hi]`. -/
+def Event.OK (c : Ctl K) : Event K → Prop
+  | .stepped r acc fac => (acc = true ↔ r ≤ c.one) ∧ c.lo ≤ fac ∧ fac ≤ c.hi
+  | .newtonFailed => True
+
+/-- loop invariant of `adaptLoop`. -/
+structure AdaptInv (c : Ctl K) (t0 t tau : K) (ts : List K) (xs : List V)
+    (log : List (Event K)) : Prop where
+  tau_pos : 0 < tau
+  len : ts.length = xs.length
+  sorted : ts.Pairwise (· < ·)
+  le_t : ∀ a ∈ ts, a ≤ t
+  head : ts.head? = some t0
+  last : ts.getLast? = some t
+  log_ok : ∀ e ∈ log, Event.OK c e
+  count : ts.length = 1 + log.countP Event.isAccepted
+
+omit [IsStrictOrderedRing K] in
+theorem AdaptInv.init (c : Ctl K) (t0 tau0 : K) (x0 : V) (h : 0 < tau0) :
+    AdaptInv c t0 t0 tau0 [t0] [x0] [] :=
+  ⟨h, rfl, List.pairwise_singleton _ _, by simp, rfl, rfl, by simp, rfl⟩
+
+theorem AdaptInv.fail {c : Ctl K} {t0 t tau : K} {ts : List K} {xs : List V}
+    {log : List (Event K)} (h : AdaptInv c t0 t tau ts xs log) (hh : 0 < c.half) :
+    AdaptInv c t0 t (tau * c.half) ts xs (log ++ [.newtonFailed]) :=
+  ⟨mul_pos h.tau_pos hh, h.len, h.sorted, h.le_t, h.head, h.last, by
+    intro e he
+    rcases List.mem_append.mp he with he | he
+    · exact h.log_ok e he
+    · rw [List.mem_singleton.mp he]; trivial,
+   by rw [h.count]; simp [Event.isAccepted]⟩
+
+theorem AdaptInv.reject {c : Ctl K} {t0 t tau : K} {ts : List K} {xs : List V}
+    {log : List (Event K)} (h : AdaptInv c t0 t tau ts xs log) (hlo : 0 < c.lo) {r fac : K}
+    (hr : ¬ r ≤ c.one) (hf : c.lo ≤ fac ∧ fac ≤ c.hi) :
+    AdaptInv c t0 t (tau * fac) ts xs (log ++ [.stepped r false fac]) :=
+  ⟨mul_pos h.tau_pos (lt_of_lt_of_le hlo hf.1), h.len, h.sorted, h.le_t, h.head, h.last, by
+    intro e he
+    rcases List.mem_append.mp he with he | he
+    · exact h.log_ok e he
+    · rw [List.mem_singleton.mp he]; exact ⟨by simp [hr], hf⟩,
+   by rw [h.count]; simp [Event.isAccepted]⟩
+
+theorem AdaptInv.accept {c : Ctl K} {t0 t tau : K} {ts : List K} {xs : List V}
+    {log : List (Event K)} (h : AdaptInv c t0 t tau ts xs log) (hlo : 0 < c.lo) {r fac : K}
+    (hr : r ≤ c.one) (hf : c.lo ≤ fac ∧ fac ≤ c.hi) (xnew : V) :
+    AdaptInv c t0 (t + tau) (tau * fac) (ts ++ [t + tau]) (xs ++ [xnew])
+      (log ++ [.stepped r true fac]) := by
+  have hpos := h.tau_pos
+  refine ⟨mul_pos h.tau_pos (lt_of_lt_of_le hlo hf.1), by simp [h.len], ?_, ?_, ?_, ?_, ?_, ?_⟩
+  · rw [List.pairwise_append]
+    refine ⟨h.sorted, List.pairwise_singleton _ _, ?_⟩
+    intro a ha b hb
+    rw [List.mem_singleton.mp hb]
+    have := h.le_t a ha
+    linarith
+  · intro a ha
+    rcases List.mem_append.mp ha with ha | ha
+    · have := h.le_t a ha; linarith
+    · rw [List.mem_singleton.mp ha]
+  · rw [List.head?_append, h.head]; rfl
+  · simp
+  · intro e he
+    rcases List.mem_append.mp he with he | he
+    · exact h.log_ok e he
+    · rw [List.mem_singleton.mp he]; exact ⟨by simp [hr], hf⟩
+  · rw [List.length_append, h.count]; simp [Event.isAccepted]; omega
+
+theorem adaptLoop_spec (step : V → K → Option V → Except StepErr (V × V × Option V))
+    (ratio : V → V → V → K) (powf : K → K) (c : Ctl K) (tEnd t0 : K)
+    (hlo : 0 < c.lo) (hlh : c.lo ≤ c.hi) (hh : 0 < c.half) :
+    ∀ (fuel : Nat) (t tau : K) (x : V) (Fx : Option V) (ts : List K) (xs : List V)
+      (log : List (Event K)) (o : AdaptOut K V),
+      adaptLoop step ratio powf c tEnd fuel t tau x Fx ts xs log = .ok o →
+      AdaptInv c t0 t tau ts xs log →
+      AdaptInv c t0 o.t o.tau o.times o.sols o.log ∧ (o.outOfFuel = false → ¬ o.t < tEnd) := by
+  intro fuel
+  induction fuel with
+  | zero =>
+    intro t tau x Fx ts xs log o h hinv
+    simp only [adaptLoop, Except.ok.injEq] at h
+    subst h
+    exact ⟨hinv, fun hd => of_decide_eq_false hd⟩
+  | succ fuel ih =>
+    intro t tau x Fx ts xs log o h hinv
+    rw [adaptLoop] at h
+    split at h
+    · split at h
+      · exact ih _ _ _ _ _ _ _ _ h (hinv.fail hh)
+      · exact absurd h (by simp)
+      · rename_i xnew xhat Fxnew hst
+        simp only [] at h
+        by_cases hr : (if ratio x xnew xhat == 0 then c.tiny else ratio x xnew xhat) ≤ c.one
+        · rw [if_pos hr] at h
+          exact ih _ _ _ _ _ _ _ _ h (hinv.accept hlo hr (pclamp_mem hlh _) _)
+        · rw [if_neg hr] at h
+          exact ih _ _ _ _ _ _ _ _ h (hinv.reject hlo hr (pclamp_mem hlh _))
+    · rename_i hnt
+      simp only [Except.ok.injEq] at h
+      subst h
+      exact ⟨hinv, fun _ => hnt⟩
+
+end adapt
+
+/-! ### deciding that an `Except` computation succeeded (for non-vacuity examples) -/
+
+/-- `e` is `.ok o` with `p o = true`. -/
+def okAnd {ε α : Type} (e : Except ε α) (p : α → Bool) : Bool :=
+  match e with
+  | .ok o => p o
+  | .error _ => false
+
+theorem exists_ok_of_okAnd {ε α : Type} {e : Except ε α} {p : α → Bool} (h : okAnd e p = true) :
+    ∃ o, e = .ok o ∧ p o = true := by
+  cases e with
+  | ok o => exact ⟨o, rfl, h⟩
+  | error e => simp [okAnd] at h
+
 
 end Pyiga.ODE
